@@ -1,6 +1,6 @@
 """C19 — narrow-phase queries terminate (exit discipline only)."""
 from ..core.report import DOMAIN_D
-from ..rules import loops
+from ..rules import loops, safediv
 from .common import NARROW_PHASE, lib_module_names
 
 
@@ -11,7 +11,8 @@ def run(idx, rep, tier):
         "(finite container / pop-before-push stack / link walk / shrink scan), PROGRESS (non-strict non-improvement exit "
         "with the carried value updated, followed into the state-returning helper), TOLERANCE (exit test evaluated every "
         "iteration; termination NOT proved: mpr._refine_portal). Anchor loops must keep the class confirmed by reading. "
-        "The bound of 1000 support evaluations and finiteness of outputs are not decided.")
+        "R-SAFEDIV: in MPR, the closed-form support functions and norm_vector every division by a magnitude (norm, sqrt, sum, a callee's distance) sits on the non-zero side of a test of that magnitude, so touching / coincident placements do not produce NaN; mpr._contact_position's fallback weights are UNKNOWN. The bound of 1000 support evaluations and finiteness of the GJK/EPA outputs are not decided.")
     rep.assumptions = DOMAIN_D
     mods = NARROW_PHASE if tier == "quick" else lib_module_names(idx)
     loops.r_loop(idx, rep, mods, floor=14)
+    safediv.r_safediv(idx, rep)
